@@ -302,6 +302,14 @@ def ocaml_build(ctx, extract_v, main_ml, extra_ml=(), model_vos=()):
     Returns path of the driver binary."""
     d = os.path.join(CACHE, "ocaml", ctx.pid)
     os.makedirs(d, exist_ok=True)
+    # parallel runs (tools/mutant_eval.py) share this directory: one builder at a time
+    import fcntl
+    with open(os.path.join(d, ".lock"), "w") as lk:
+        fcntl.flock(lk, fcntl.LOCK_EX)
+        return _ocaml_build_locked(ctx, d, extract_v, main_ml, extra_ml, model_vos)
+
+
+def _ocaml_build_locked(ctx, d, extract_v, main_ml, extra_ml=(), model_vos=()):
     # the model's .vo files must be up to date
     if model_vos:
         rc, out = coq_make(list(model_vos))
@@ -457,6 +465,38 @@ def run_driver(drv, impl_file, verdict_file, timeout=1800, args=()):
     return ok, bad, stats
 
 
+# A panic / abort of the harness process that is caused by the operating system refusing a resource
+# (thread creation fails with EAGAIN, memory) says nothing about the property: such cases are re-run
+# (serially, after a pause); if the condition persists the check stops as a machinery failure (exit 2),
+# it is never reported as a violation.
+RESOURCE_RE = re.compile(
+    r"Resource temporarily unavailable|WouldBlock|could not build thread pool|failed to spawn thread|"
+    r"failed to initiate panic|Cannot allocate memory|OutOfMemory, message|os error 11\b|os error 12\b|memory allocation of \d+ bytes failed")
+
+
+def retry_resource_failures(ctx, bin_path, drv, lookup, bad, env=None, drv_args=(), impl_args=(), timeout=1800, tag=""):
+    """bad: [(case id, message)]; lookup: case id -> (header, ops).  Returns the bad list with the resource
+    failures replaced by the verdicts of their re-runs."""
+    res = [(c, m) for c, m in bad if not RESOURCE_RE.search(m)]
+    todo = [c for c, m in bad if RESOURCE_RE.search(m)]
+    for attempt in range(4):
+        if not todo:
+            break
+        ctx.add_stat("resource_failures_retried", len(todo))
+        time.sleep(3 + 5 * attempt)
+        f = os.path.join(ctx.workdir, f"cases{tag}-resretry.txt")
+        write_cases(f, [lookup[c] for c in todo if c in lookup])
+        impl_file = os.path.join(ctx.workdir, f"impl{tag}-resretry.txt")
+        verdict_file = os.path.join(ctx.workdir, f"verdict{tag}-resretry.txt")
+        run_impl(bin_path, f, impl_file, env=env, timeout=timeout, extra_args=impl_args)
+        _ok, bad2, _st = run_driver(drv, impl_file, verdict_file, timeout=timeout, args=drv_args)
+        res += [(c, m) for c, m in bad2 if not RESOURCE_RE.search(m)]
+        todo = [c for c, m in bad2 if RESOURCE_RE.search(m)]
+    if todo:
+        raise CheckFailure(f"operating-system resources exhausted (threads / memory) while running cases {todo[:5]}; not a verdict")
+    return res
+
+
 def lockstep(ctx, bin_path, drv, cases_file, tag="", env=None, drv_args=(), impl_args=(), timeout=1800):
     impl_file = os.path.join(ctx.workdir, f"impl{tag}.txt")
     verdict_file = os.path.join(ctx.workdir, f"verdict{tag}.txt")
@@ -465,6 +505,12 @@ def lockstep(ctx, bin_path, drv, cases_file, tag="", env=None, drv_args=(), impl
     for k, v in stats.items():
         ctx.add_stat(k, v)
     ctx.add_stat("restarts", restarts)
+    if any(RESOURCE_RE.search(m) for _, m in bad):
+        lookup = {h.split()[0]: (h, ops) for h, ops in parse_cases(open(cases_file).read())}
+        n0 = len(bad)
+        bad = retry_resource_failures(ctx, bin_path, drv, lookup, bad, env=env, drv_args=drv_args, impl_args=impl_args,
+                                      timeout=timeout, tag=tag)
+        ok += n0 - len(bad)
     return ok, bad
 
 
@@ -510,6 +556,12 @@ def lockstep_sharded(ctx, bin_path, drv, cases, nshards=16, env=None, drv_args=(
             for k2, v in stats.items():
                 ctx.add_stat(k2, v)
             ctx.add_stat("restarts", restarts)
+    if any(RESOURCE_RE.search(m) for _, m in bad_total):
+        lookup = {h.split()[0]: (h, ops) for h, ops in cases}
+        n0 = len(bad_total)
+        bad_total = retry_resource_failures(ctx, bin_path, drv, lookup, bad_total, env=env, drv_args=drv_args,
+                                            impl_args=impl_args, timeout=timeout, tag=tag)
+        ok_total += n0 - len(bad_total)
     return ok_total, bad_total, digests
 
 
